@@ -1,6 +1,44 @@
-(* C04 — placeholder until Multiply.v lands: the mixed-product law the sum rule rests on is stated here. *)
-From Coq Require Import List Ring_theory.
+(* C04 — multiply returns the pointwise product
+   Property theorems only: each is closed by `exact <lemma>`; proofs live in the imported files. *)
+From Coq Require Import List ZArith QArith Qcanon Ring_theory Field_theory Permutation Sorted.
 Import ListNotations.
 From CK Require Import Base.
-Theorem C04_placeholder : True. Proof. exact I. Qed.
-Print Assumptions C04_placeholder.
+From CK Require Import Circ.
+From CK Require Import Multiply.
+Close Scope Qc_scope. Close Scope Q_scope. Close Scope Z_scope. Open Scope nat_scope.
+
+(* every pair node (i,j) of the product circuit evaluates to kron (value of i in c1) (value of j in c2), for all well-scoped circuits with declared unit counts, all inputs, any choice of pairs forced to the Kronecker fallback *)
+Theorem C04_multiply :
+  forall (R : Type) (rO rI : R) (radd rmul : R -> R -> R),
+         semi_ring_theory rO rI radd rmul eq ->
+         forall (D : Type) (force : nat -> nat -> bool) (c1 c2 : circuit R D),
+         wfm R rO radd rmul D c1 ->
+         wfm R rO radd rmul D c2 ->
+         forall (y : asg D) (i j : nat),
+         i < length c1 ->
+         j < length c2 ->
+         nth (pidx R D c1 c2 i j) (eval R rO radd rmul D (multiply R rmul D force c1 c2) y) [] =
+         kron R rmul (nth i (eval R rO radd rmul D c1 y) []) (nth j (eval R rO radd rmul D c2 y) []).
+Proof. exact multiply_correct. Qed.
+Print Assumptions C04_multiply.
+
+(* the outputs of the product circuit are the Kronecker products of the operands' outputs, output (o1,o2) in o1-major order *)
+Theorem C04_outputs :
+  forall (R : Type) (rO rI : R) (radd rmul : R -> R -> R),
+         semi_ring_theory rO rI radd rmul eq ->
+         forall (D : Type) (force : nat -> nat -> bool) (c1 c2 : circuit R D),
+         wfm R rO radd rmul D c1 ->
+         wfm R rO radd rmul D c2 ->
+         forall (outs1 outs2 : list nat) (y : asg D),
+         (forall o : nat, In o outs1 -> o < length c1) ->
+         (forall o : nat, In o outs2 -> o < length c2) ->
+         map (get R (eval R rO radd rmul D (multiply R rmul D force c1 c2) y))
+           (outs_prod R D c1 c2 outs1 outs2) =
+         flat_map
+           (fun o1 : nat =>
+            map
+              (fun o2 : nat =>
+               kron R rmul (get R (eval R rO radd rmul D c1 y) o1) (get R (eval R rO radd rmul D c2 y) o2))
+              outs2) outs1.
+Proof. exact multiply_outputs. Qed.
+Print Assumptions C04_outputs.
